@@ -272,7 +272,7 @@ fn on_connect(w: &mut World, conn: usize, pkt: &Packet) {
     w.conns[conn].connect_keepalive = *keepalive;
     if !w.session_ambiguous {
         let want_clean = !w.ever_success_connack;
-        if *clean_start != want_clean {
+        if *clean_start != want_clean && !w.clean_start_ambiguous {
             w.violate(
                 "C05",
                 format!("clean-start/got={},want={}", clean_start, want_clean),
@@ -282,6 +282,13 @@ fn on_connect(w: &mut World, conn: usize, pkt: &Packet) {
                     clean_start,
                     if w.ever_success_connack { "" } else { " never" }
                 ),
+            );
+        }
+        if client_id.starts_with("rejected-") {
+            w.violate(
+                "C08",
+                "malformed-partially-acted-upon/assigned-client-id-of-rejected-connack".into(),
+                format!("CONNECT carries client id {:?}, which was assigned by a CONNACK that connect() rejected as invalid", client_id),
             );
         }
         if *client_id != w.expected_client_id {
@@ -377,6 +384,15 @@ fn on_connect(w: &mut World, conn: usize, pkt: &Packet) {
             "CONNECT user name/password differ from configuration".into(),
         );
     }
+    if rm == Some(0) || mps == Some(0) {
+        // a conformant broker treats these values as a protocol error [MQTT-3.1.2-11.3]
+        w.conns[conn].connack_sent = true;
+        let p = Packet::ConnAck { session_present: false, reason: 0x82, props: vec![] };
+        send(w, conn, 0, &p, RxMeta::ConnAck { session_present: false, reason: 0x82, semantic_ok: true });
+        w.schedule(0, Event::Close { conn });
+        w.probe("broker_refused_connect_as_protocol_error");
+        return;
+    }
     connack_policy(w, conn, *clean_start, client_id.is_empty());
 }
 
@@ -442,13 +458,30 @@ fn connack_policy(w: &mut World, conn: usize, clean_start: bool, need_id: bool) 
             _ => {
                 // structurally valid, success code, semantically invalid property
                 w.fault("connack_semantic_invalid");
-                let sp = !clean_start && w.broker_has_session;
+                // (the broker may have lost the session here as anywhere else)
+                let lost = chance(w, t, 7, w.cfg.p_session_loss.max(250));
+                let sp = !clean_start && w.broker_has_session && w.cfg.session_expiry != 0 && !lost;
                 let bad = match pick(w, t, 5, 2) {
                     0 => Prop { id: 0x21, val: PVal::U16(0) },
                     _ => Prop { id: 0x24, val: PVal::Byte(3) },
                 };
-                let p = Packet::ConnAck { session_present: sp, reason: 0, props: vec![bad] };
+                // half of them carry a perfectly valid Assigned Client Identifier *before* the
+                // offending property: a rejected CONNACK must not be acted upon in part
+                let mut props = Vec::new();
+                if pick(w, t, 6, 2) == 1 {
+                    props.push(Prop { id: 0x12, val: PVal::Str(format!("rejected-{conn}")) });
+                }
+                props.push(bad);
+                let p = Packet::ConnAck { session_present: sp, reason: 0, props };
                 if codec::encode(&p).len() <= w.cfg.rx_len {
+                    // the broker itself considers the CONNECT accepted: it has a session now, a
+                    // fresh one if it said so
+                    if !sp {
+                        for m in w.bmsgs.iter_mut() {
+                            m.state = 2;
+                        }
+                    }
+                    w.broker_has_session = true;
                     send(w, conn, 0, &p, RxMeta::ConnAck { session_present: sp, reason: 0, semantic_ok: false });
                 }
                 w.schedule(0, Event::Close { conn });
@@ -554,6 +587,13 @@ fn connack_policy(w: &mut World, conn: usize, clean_start: bool, need_id: bool) 
         let id = format!("assigned-{}", conn);
         assigned = Some(id.clone());
         props.push(Prop { id: 0x12, val: PVal::Str(id) });
+    }
+    // MQTT does not prescribe an order of the properties: shuffle them
+    if !benign && props.len() > 1 {
+        for i in (1..props.len()).rev() {
+            let j = pick(w, t ^ 0x5AFE, 30 + i as u64, i as u32 + 1) as usize;
+            props.swap(i, j);
+        }
     }
     // The broker honours the client's Maximum Packet Size: drop optional properties until the
     // CONNACK fits the receive buffer.
@@ -1114,7 +1154,9 @@ fn on_client_ack(w: &mut World, conn: usize, typ: u8, id: u16, reason: Option<u8
     // optional re-sends of acks owed on an earlier connection come first, in order
     let mut matched = false;
     // (each carried acknowledgement is individually optional, but their order is kept)
-    if let Some(pos) = w.conns[conn].carry_acks.iter().position(|&(t, i, r)| (t, i, r.unwrap_or(0)) == got) {
+    // (a reason left open when the acknowledgement became due - the client may remember exchanges
+    // of a broker session that was lost behind its back - stays open when it is carried over)
+    if let Some(pos) = w.conns[conn].carry_acks.iter().position(|&(t, i, r)| (t, i) == (got.0, got.1) && (r.is_none() || r == Some(got.2))) {
         let e = w.conns[conn].carry_acks[pos];
         w.conns[conn].carry_acks.drain(..=pos);
         w.conns[conn].unflushed_acks.push_back(e);
@@ -1145,6 +1187,11 @@ fn on_client_ack(w: &mut World, conn: usize, typ: u8, id: u16, reason: Option<u8
         (5, Some(bi)) => {
             if reason.unwrap_or(0) < 0x80 {
                 w.bmsgs[bi].state = 1;
+                if w.hold_pubrel {
+                    // saturation scenario: the PUBREL does not come on this connection
+                    w.fault("pubrel_withheld");
+                    return;
+                }
                 let d = delay_us(w, 0xB000 + bi as u64, 1);
                 let p = Packet::Ack { typ: 6, id, reason: None, props: None };
                 send(w, conn, d, &p, RxMeta::PubRel { id });
@@ -1210,16 +1257,32 @@ pub fn on_client_consumed(w: &mut World, conn: usize, meta: RxMeta) {
                 return;
             }
             if !semantic_ok {
-                w.session_ambiguous = true;
-                for r in w.reqs.iter_mut() {
-                    r.ambiguous = true;
-                }
+                // connect() must fail. If the broker said "no session" it has replaced the
+                // session all the same: everything from before is stale from now on and the
+                // earlier handles are invalidated. (What the next CONNECT asks for after that is
+                // the one thing left open: the letter of C05 says "resume", minimq - pinned by a
+                // test - starts clean again.)
                 w.expect = Some(Expect::Invalid);
-                w.client_qos2_ambiguous = true;
+                if !session_present {
+                    if w.ever_success_connack {
+                        w.clean_start_ambiguous = true;
+                    }
+                    w.epoch += 1;
+                    for r in w.reqs.iter_mut() {
+                        r.invalidated = true;
+                        r.ambiguous = false;
+                    }
+                    w.client_qos2_pending.clear();
+                    w.client_qos2_ambiguous = false;
+                    w.carry_over_acks.clear();
+                    w.ids_ambiguous = false;
+                    w.probe("fresh_session_in_rejected_connack");
+                }
                 return;
             }
             w.ever_success_connack = true;
             w.session_ambiguous = false;
+            w.clean_start_ambiguous = false;
             w.conns[conn].established = true;
             w.conns[conn].t_connack_consumed = Some(clock::now());
             w.conns[conn].last_complete_t = Some(clock::now());
@@ -1449,7 +1512,8 @@ pub fn broker_publish(w: &mut World, conn: usize) -> bool {
     }
     let btag = w.next_btag;
     let t = 0xA0000 + btag as u64;
-    let qos = pick(w, t, 1, 3) as u8;
+    let drawn = pick(w, t, 1, 3) as u8;
+    let qos = w.force_inbound_qos.unwrap_or(drawn);
     if qos > 0 {
         let inflight = w.bmsgs.iter().filter(|m| m.qos > 0 && m.state != 2).count();
         if inflight >= w.client_receive_max.unwrap_or(65535) as usize {
